@@ -265,6 +265,9 @@ def released_fields(u, fr, T, seen=None):
     return out
 
 
+# generic robustness battery: renaming every local/parameter in these files must not change any verdict
+RENAME_LOCALS = ['src/pdir-posix.c', 'src/pshm-posix.c', 'src/psemaphore-posix.c', 'src/plibraryloader-posix.c']
+
 SELFTEST = [
     dict(id="dir-free-forgets-orig-path", file="src/pdir-posix.c", expect="C20.1",
          old="\tp_free (dir->path);\n\tp_free (dir->orig_path);\n\tp_free (dir);", new="\tp_free (dir->path);\n\tp_free (dir);"),
